@@ -158,6 +158,14 @@ Definition http_store_decision (f : fixes) (cachable : bool) (expires : option Z
                 if fx2 f && (ttl <=? 0) then None else Some ttl
     end.
 
+(** since 12fdf68: only GET and HEAD requests are looked up ([cachedResponse])
+    and stored, and a response carrying a Vary header is never stored; these
+    gates come before the cachecontrol verdict in [cacheResponse] *)
+Definition http_lookup (method_ok : bool) : bool := method_ok.
+
+Definition http_storable (method_ok vary cachable : bool) : bool :=
+  method_ok && negb vary && cachable.
+
 (** ** the two cache semantics *)
 
 Inductive backend := Mem | Redis.
